@@ -112,8 +112,8 @@ def main(prop=PROP):
     results = pmap(explore, items)
     chk.cov['functions_encoded'] = src_hash(M.parse_tree_to_objgraph, M._end_model_construction, M.get_model_parser)
     chk.cov['bounds'] = {'cases': sorted(set(i[0] for i in items)), 'variants': LC.VARIANTS,
-                         'fault_points': 'every scope-provider / object-processor / match-rule-processor (during construction) / model-processor call'}
-    chk.cov['outside_claim'] = ['faults inside user __init__ (the class under observation)', 'other grammars']
+                         'fault_points': 'every scope-provider / object-processor / match-rule-processor (during construction) / model-processor call and every user-class constructor call'}
+    chk.cov['outside_claim'] = ['other grammars']
     chk.assumptions = ['finite fault space enumerated exhaustively (selectors unconstrained: z3 decides nothing)']
     paths = 0
     seen = set()
